@@ -31,7 +31,9 @@ func init() {
 }
 
 // nows drops white space and the suffix the helper expansion gives to the identifiers of an expanded helper (x_i12 reads x).
-func nows(s string) string { return expandSfx.ReplaceAllString(strings.Join(strings.Fields(s), ""), "") }
+func nows(s string) string {
+	return expandSfx.ReplaceAllString(strings.Join(strings.Fields(s), ""), "")
+}
 
 var expandSfx = regexp.MustCompile(`_i[0-9]+\b`)
 
@@ -800,6 +802,19 @@ func rulePanicInventory(c *Ctx) []Ob {
 			pk := fnPkgPath(fn)
 			key := pk[strings.LastIndex(pk, "/")+1:] + "." + shortFn(fn)
 			why, listed := panicTable[key]
+			if !listed {
+				// the start-up self-test of the runtime layout hacks, wherever its guard is written: the panic value is the
+				// package-level message the self-test left
+				x := pn.X
+				if mi, ok := x.(*ssa.MakeInterface); ok {
+					x = mi.X
+				}
+				if u, ok := x.(*ssa.UnOp); ok && u.Op == token.MUL {
+					if g, ok := u.X.(*ssa.Global); ok && g.Name() == "hackErrMsg" {
+						why, listed = panicTable["reflect.panicIfHackErr"], true
+					}
+				}
+			}
 			s.check(listed, key, c.InstrPos(pn), "listed: "+why, "explicit panic reachable from the entry points that is not in the inventory: a crash instead of an error for some input or type: "+c.srcLine(pn.Pos()))
 		}
 	}
